@@ -1325,8 +1325,12 @@ def check_history(env, case):
 SYNTH_ARGS = ['none', 'empty', 'pair', 'pairs', 'index', 'list', 'nested',
               'tuple', 'dict', 'bus', 'buslist', 'mapstr', 'abusmap', 'buf',
               'dictobj']
+# 'dictpos' (a dict passed positionally to Node.set) is left out: the set()
+# docstring specifies alternating controls and values, so a positional dict is
+# outside the documented input domain (dict arguments are exercised through the
+# Synth constructor: 'dict', 'dictobj').
 SET_ARGS = ['empty', 'pair', 'pairs', 'index', 'list', 'nested', 'tuple',
-            'bus', 'buslist', 'mapstr', 'abusmap', 'buf', 'dictpos']
+            'bus', 'buslist', 'mapstr', 'abusmap', 'buf']
 FIXTURE = [
     {'k': 'new', 'cls': 'Group', 'ctor': 'init', 'act': 'addToHead',
      'tgt': ['none']},
